@@ -40,7 +40,7 @@ var oplogVals = append(append([]interface{}{}, collideVals...), primitive.DateTi
 
 var profOplog = &hProfile{name: "oplog", cfg: gen.Core, weights: writeWeights(map[string]int{"updateMany": 10, "dropColl": 2, "dropDB": 2, "createIndex": 5, "expire": 5, "txnAborted": 2}), nss: allNS, docGen: defaultDocGen, idPool: baseIDs, tinyVals: oplogVals, ttl: true, storeFail: 6, ttlBoost: 40}
 
-var profAlias = &hProfile{name: "alias", cfg: gen.Wide, weights: writeWeights(map[string]int{"find": 8, "findOne": 4, "distinct": 6, "listIndexes": 2, "insertOne": 12}), nss: []string{"d1.c1", "d1.c1", "d1.c2"}, docGen: defaultDocGen, idPool: baseIDs}
+var profAlias = &hProfile{name: "alias", cfg: gen.Wide, weights: writeWeights(map[string]int{"find": 8, "findOne": 4, "distinct": 6, "listIndexes": 2, "insertOne": 12, "watchProbe": 2}), nss: []string{"d1.c1", "d1.c1", "d1.c2"}, docGen: defaultDocGen, idPool: baseIDs}
 
 func regHistory(id, sub string, p *hProfile, mk func() []hOracle, minSteps, maxSteps int, nt func(r *hRun) bool) *Prop {
 	return Register(&Prop{ID: id, Sub: sub, Live: liveHistory(p, mk, minSteps, maxSteps, nt), Run: runHistory(mk, nt)})
